@@ -53,6 +53,10 @@ add("C17","E5 codec + E1 enum","exploration",
     "EVERY radix 2..=36: all strings of length <= 4/5 over a 10-symbol alphabet (digits, max digit, first invalid digit, '_', '+', letters, space, non-ASCII) parsed into U64, U128, unbounded and precision-limited BoxedUint and compared with an independent grammar (value, Empty / InvalidDigit / InputSize / Precision exactly, never a wrapped value, never a panic); formatting of 0, 1, radix^j, radix^j+-1 for every j, 2^BITS-1 and patterns for Uint<1,2,3,4,8,16,40> and BoxedUint up to 140 limbs vs BigUint::to_str_radix, parsed back with '+', leading zeros, upper case and an underscore at every interior position; overflow and precision boundary numerals.",
     ASSUME + " Radices are exhaustive; short strings over the stated alphabet are exhaustive.", "grammar-exhaustive exploration of the real parsers/formatters against an independent reference grammar and BigUint", "DESIGN.md §3.C17")
 
+add("C18","E5 codec","exploration",
+    "DER INTEGER (from_der, TryFrom<AnyRef>, TryFrom<UintRef>, to_der, encode_to_slice, encoded_len) for U64, U128, U192, U256, U384, U512, U1024, U8192 and RLP (rlp::decode / rlp::encode) for U64..U256: the complete product of tags x length forms (minimal, overlong, indefinite, truncated, trailing garbage) x every content length 0..=BITS/8+4 x content patterns (leading 00 / 00 00 / 00 80 / ff / 80 / 7f, zeros, probe); an independent recogniser decides whether the input is exactly one canonical encoding of a value that fits; the decoder must return that value iff so and an error otherwise (never a panic, truncation or wrap). Encoders compared with reference encoders at the 7f/80 boundary of every octet length.",
+    ASSUME + " The rlp crate's top-level decode ignores bytes after a complete item; such inputs are not generated.", "grammar-exhaustive exploration of the real decoders against an independent canonical-encoding recogniser", "DESIGN.md §3.C18")
+
 NOT_YET = {}
 ALL = [f"C{i:02d}" for i in range(1,21)]
 import os, sys
